@@ -1446,10 +1446,16 @@ class Exec(object):
             fr.locals.update(self.bind_args(c.node, args, kwargs, fr, line, c.frame.qual))
             return self.eval(c.node.body, fr)
         fr.locals.update(self.bind_args(c.node, args, kwargs, fr, line, c.frame.qual))
-        return self.run_body(c.node, fr)
+        # a nested function shares the contract of the function it is defined in: its loops are numbered with the
+        # enclosing function's (source order), so `c.loop(k, ...)` can give them invariants
+        fr.contract = c.frame.contract
+        fr.loop_ord = c.frame.loop_ord
+        fr.old = c.frame.old
+        return self.run_body(c.node, fr, renumber=False)
 
-    def run_body(self, node, fr):
-        self.number_loops(node, fr)
+    def run_body(self, node, fr, renumber=True):
+        if renumber:
+            self.number_loops(node, fr)
         try:
             self.exec_block(node.body, fr)
         except _Return as r:
@@ -1712,7 +1718,9 @@ class Exec(object):
         for n in sorted(targets):
             if n in fr.locals:
                 if spec.havoc and n in spec.havoc:
-                    fr.locals[n] = spec.havoc[n](self)
+                    hv = spec.havoc[n]
+                    # a custom havoc may look at the frame (e.g. at a ghost counter havocked before it: names are havocked in sorted order)
+                    fr.locals[n] = hv(self, fr) if len(inspect.signature(hv).parameters) >= 2 else hv(self)
                 else:
                     fr.locals[n] = self.havoc_value(fr.locals[n], n)
         for k, inv in enumerate(spec.invariants):
